@@ -474,6 +474,40 @@ pub fn run_c08(out: &mut Out, tier: &str, seed: u64) {
             lits.push(l);
         }
     }
+    // raw-number mode wherever a Value is read: the root, elements of a typed vector, a struct field, a later
+    // stream document (the latter three go through the copying parser): the literal is kept verbatim
+    {
+        #[derive(serde::Deserialize)]
+        struct Holder {
+            v: Value,
+        }
+        let keep: Vec<String> = lits.iter().filter(|l| gen::is_json_number(l)).take(if thorough { 3000 } else { 600 }).cloned().collect();
+        for lit in keep {
+            let r = guarded(|| -> Vec<(&'static str, Option<String>)> {
+                let mut got = Vec::new();
+                let raw_of = |v: &Value| v.as_raw_number().map(|r| r.as_str().to_string());
+                got.push(("root", sonic_rs::Deserializer::from_str(&lit).use_rawnumber().deserialize::<Value>().ok().and_then(|v| raw_of(&v))));
+                let t = format!("[{lit}, {lit}]");
+                got.push(("Vec<Value>", sonic_rs::Deserializer::from_str(&t).use_rawnumber().deserialize::<Vec<Value>>().ok().and_then(|v| v.get(1).and_then(raw_of))));
+                let t = format!("{{\"v\":{lit}}}");
+                got.push(("struct field", sonic_rs::Deserializer::from_str(&t).use_rawnumber().deserialize::<Holder>().ok().and_then(|h| raw_of(&h.v))));
+                let t = format!("null {lit}");
+                got.push(("second stream document", sonic_rs::Deserializer::from_str(&t).use_rawnumber().into_stream::<Value>().nth(1).and_then(|x| x.ok()).and_then(|v| raw_of(&v))));
+                let t = format!("[{lit}]");
+                got.push(("nested in root", sonic_rs::Deserializer::from_str(&t).use_rawnumber().deserialize::<Value>().ok().and_then(|v| v.get(0).and_then(raw_of))));
+                got
+            });
+            let verdict = match r {
+                Err(p) => format!("panic:{p}"),
+                Ok(got) => {
+                    let bad: Vec<String> = got.iter().filter(|(_, g)| g.as_deref() != Some(lit.as_str())).map(|(w, g)| format!("{w}: {g:?}")).collect();
+                    if bad.is_empty() { "true".to_string() } else { bad.join("; ") }
+                }
+            };
+            out.case("expect", &["raw-number mode keeps the literal on every route", &hex(lit.as_bytes())], &verdict, true);
+            out.count("rawnumber routes");
+        }
+    }
     for lit in lits {
         out.count("rawnumber");
         let h = hex(lit.as_bytes());
